@@ -20,8 +20,8 @@ func init() {
 		Title: "JavaScript calls are isolated from each other and map values faithfully",
 		Explanation: "R20a set/delete symmetry on pooled VMs: every goja Runtime.Set in the repository is in the function that runs the program, with its name taken from ranging over a map A; a deferred function (Defer dominates the first Set and RunProgram) ranges over the same map cell A and deletes each name from the VM's global object; the deletion runs before sync.Pool.Put (same deferred function: Delete not reachable after Put; separate defers: Put registered first), Put is deferred, receives exactly the object Get returned, and the VM is not used after Put. " +
 			"R20b _node is current: the value stored under the _node argument name is computed from the function's own node parameter by a call chain that contains no cache (no LoadingCache.Get, no map lookup in package-level state); loader purity of every LoadingCache.Get in the package (free variables of the loader are the key or immutable). " +
-			"R20c rejection before export: Export() on the result is dominated by the false outcome of goja.IsNaN, IsInfinity, IsNull and IsUndefined on that same value, and by the nil edge of the RunProgram error. " +
-			"R20d argument pairing: the odd-length test dominates the pairing loop and returns an error; the name assertion is comma-ok with an error return. " +
+			"R20c rejection before export: Export() on the result is dominated by the false outcome of goja.IsNaN, IsInfinity, IsNull and IsUndefined on that same value, and by the nil edge of the RunProgram error (when the value is a parameter of an extracted classification helper whose callers can all be enumerated, the tests may instead guard the bound argument at every call site). " +
+			"R20d argument pairing: the odd-length test (len of the paired slice modulo 2) dominates the pairing loop and returns an error — in the pairing function itself or, for the argument it is given, at every call site of an extracted pairing helper; the name assertion is comma-ok with an error return. " +
 			"R20e compiled programs are used only as the argument of RunProgram. R20f the transform-result cache that memoises custom_func results is created per record (= C10 R10a): a javascript result computed for an ancestor node is never served to a later record.",
 		NotDecided: "the JS→Go value mapping performed by goja's Export; scripts that assign globals themselves (excluded by the statement); concurrency inside goja; a correct re-implementation of the rejection test that does not use goja's four predicates would be reported (idiom enumerated from the code base).",
 		Trusted:    append([]string{"goja: Runtime.Set/GlobalObject().Delete define/remove a global; *goja.Program is immutable; Export maps JS values as documented"}, commonTrusted...),
@@ -748,37 +748,44 @@ func c20Export(c *core.Ctx, fns []*ssa.Function) {
 			v := cc.Value
 			key := core.FuncKey(f) + " Export"
 			for _, pred := range []string{"IsNaN", "IsInfinity", "IsNull", "IsUndefined"} {
-				ok := false
-				for _, cj := range core.Calls(f) {
-					if !isGojaFunc(cj, pred) || cj.Common().Args[0] != v {
-						continue
+				pred := pred
+				// the predicate is found false for the same value on every path to the Export: in this function, or — when the
+				// value is a parameter of an extracted helper — at every call site of the helper for the bound argument
+				ok := f2GuardedAt(c, v, ci, func(v ssa.Value, blk *ssa.BasicBlock) bool {
+					for _, cj := range core.Calls(blk.Parent()) {
+						if !isGojaFunc(cj, pred) || cj.Common().Args[0] != v {
+							continue
+						}
+						if pv := cj.Value(); pv != nil && falseEdgeDominates(pv, blk, false) {
+							return true
+						}
 					}
-					pv := cj.Value()
-					if pv == nil {
-						continue
-					}
-					if falseEdgeDominates(pv, ci.Block(), false) {
-						ok = true
-					}
-				}
+					return false
+				}, 0)
 				c.Check(ok, "R20c", key+" after !"+pred, core.InstrPos(ci), "Export is reachable only when goja."+pred+" is false for the same value",
 					"Export can be reached without goja."+pred+"(v) having been found false: a "+strings.TrimPrefix(pred, "Is")+" result would be emitted instead of an error")
 			}
 			// error test: v derives from a call whose error result is tested
-			okErr := false
-			if ex, ok := v.(*ssa.Extract); ok {
+			// (the exported value may have been handed to a result-classification helper: then the test is looked for at
+			// every call site of the helper, for the argument bound to the parameter)
+			okErr := f2GuardedAt(c, v, ci, func(v ssa.Value, blk *ssa.BasicBlock) bool {
+				ex, ok := v.(*ssa.Extract)
+				if !ok {
+					return false
+				}
 				for _, u := range core.Referrers(ex.Tuple) {
 					if e2, ok := u.(*ssa.Extract); ok && e2.Index != ex.Index && types.Identical(e2.Type(), types.Universe.Lookup("error").Type()) {
 						for _, u2 := range core.Referrers(e2) {
 							if bo, ok := u2.(*ssa.BinOp); ok && (core.IsNilConst(bo.X) || core.IsNilConst(bo.Y)) {
-								if falseEdgeDominates(bo, ci.Block(), bo.Op == token.EQL) {
-									okErr = true
+								if falseEdgeDominates(bo, blk, bo.Op == token.EQL) {
+									return true
 								}
 							}
 						}
 					}
 				}
-			}
+				return false
+			}, 0)
 			c.Check(okErr, "R20c", key+" after error test", core.InstrPos(ci), "Export is reached only when the run error is nil", "the result value is used although the run error was not found nil (thrown exceptions must be reported as errors)")
 		}
 	}
@@ -818,6 +825,7 @@ func c20Pairing(c *core.Ctx, fns []*ssa.Function) {
 	found := false
 	for _, f := range fns {
 		var firstUpdate *ssa.MapUpdate
+		var pairedParam *ssa.Parameter
 		var nameAsserts []*ssa.TypeAssert
 		for _, b := range f.Blocks {
 			for _, in := range b.Instrs {
@@ -830,6 +838,7 @@ func c20Pairing(c *core.Ctx, fns []*ssa.Function) {
 					if ta, ok := kv.(*ssa.TypeAssert); ok && fromVariadicParam(ta.X, f) {
 						if firstUpdate == nil {
 							firstUpdate = mu
+							pairedParam = ta.X.(*ssa.UnOp).X.(*ssa.IndexAddr).X.(*ssa.Parameter)
 						}
 						nameAsserts = append(nameAsserts, ta)
 					}
@@ -841,34 +850,9 @@ func c20Pairing(c *core.Ctx, fns []*ssa.Function) {
 		}
 		found = true
 		key := core.FuncKey(f)
-		// odd-length test
-		okOdd := false
-		for _, b := range f.Blocks {
-			ifi, ok := b.Instrs[len(b.Instrs)-1].(*ssa.If)
-			if !ok {
-				continue
-			}
-			bo, ok := ifi.Cond.(*ssa.BinOp)
-			if !ok || !(bo.Op == token.NEQ || bo.Op == token.EQL) {
-				continue
-			}
-			rem, ok := bo.X.(*ssa.BinOp)
-			if !ok || rem.Op != token.REM {
-				continue
-			}
-			if call, ok := rem.X.(*ssa.Call); !ok || call.Call.Value.Name() != "len" {
-				continue
-			}
-			contIdx := 1
-			if bo.Op == token.EQL {
-				contIdx = 0
-			}
-			cont := b.Succs[contIdx]
-			other := b.Succs[1-contIdx]
-			if cont.Dominates(firstUpdate.Block()) && len(cont.Preds) == 1 && returnsNonNilError(other) {
-				okOdd = true
-			}
-		}
+		// odd-length test on the paired slice: in this function before the first pairing, or — when the pairing loop was
+		// extracted into a helper that receives the slice — at every call site of the helper, on the argument, before the call
+		okOdd := f2GuardedAt(c, pairedParam, firstUpdate, c20OddLenRejected, 0)
 		c.Check(okOdd, "R20d", key+" odd argument count", core.InstrPos(firstUpdate), "an odd number of arguments is rejected before the pairing loop", "the pairing loop is reachable with an odd number of arguments: the last name is silently dropped or mis-paired")
 		for _, ta := range nameAsserts {
 			c.Check(ta.CommaOk, "R20d", key+" name assertion", core.InstrPos(ta), "argument name assertion is comma-ok", "unchecked type assertion on an argument name: a non-string name panics inside Read")
@@ -877,6 +861,50 @@ func c20Pairing(c *core.Ctx, fns []*ssa.Function) {
 	if !found {
 		c.Unresolved("R20d", "argument pairing function", "no function pairs variadic arguments into a name->value map")
 	}
+}
+
+// c20OddLenRejected: the function of block blk tests len(v)%2 against 0, the even outcome is the only way into a block
+// that dominates blk, and the odd outcome returns a non-nil error.
+func c20OddLenRejected(v ssa.Value, blk *ssa.BasicBlock) bool {
+	for _, b := range blk.Parent().Blocks {
+		ifi, ok := b.Instrs[len(b.Instrs)-1].(*ssa.If)
+		if !ok {
+			continue
+		}
+		bo, ok := ifi.Cond.(*ssa.BinOp)
+		if !ok || !(bo.Op == token.NEQ || bo.Op == token.EQL) {
+			continue
+		}
+		cmp, ok := bo.Y.(*ssa.Const)
+		if !ok || cmp.Value == nil || (cmp.Value.ExactString() != "0" && cmp.Value.ExactString() != "1") {
+			continue
+		}
+		rem, ok := bo.X.(*ssa.BinOp)
+		if !ok || rem.Op != token.REM {
+			continue
+		}
+		if two, ok := rem.Y.(*ssa.Const); !ok || two.Value == nil || two.Value.ExactString() != "2" {
+			continue
+		}
+		call, ok := rem.X.(*ssa.Call)
+		if !ok {
+			continue
+		}
+		if bi, ok := call.Call.Value.(*ssa.Builtin); !ok || bi.Name() != "len" || core.Unwrap(call.Call.Args[0], false) != v {
+			continue
+		}
+		// which successor is taken for an even length
+		contIdx := 1 // len%2 != 0, len%2 == 1: even continues on the false edge
+		if (bo.Op == token.EQL) == (cmp.Value.ExactString() == "0") {
+			contIdx = 0 // len%2 == 0, len%2 != 1
+		}
+		cont := b.Succs[contIdx]
+		other := b.Succs[1-contIdx]
+		if cont != other && cont.Dominates(blk) && len(cont.Preds) == 1 && returnsNonNilError(other) {
+			return true
+		}
+	}
+	return false
 }
 
 func fromVariadicParam(v ssa.Value, f *ssa.Function) bool {
